@@ -6,6 +6,7 @@ import (
 
 	"verif/core"
 	"verif/filecheck"
+	"verif/simdisk"
 )
 
 // QOpKind enumerates abstract queue operations.
@@ -137,6 +138,9 @@ func (q *QWorld) Exec(op QOp) bool {
 		}
 		return q.ACK(n)
 	case QReopen:
+		if q.UnsafeReopen {
+			return true
+		}
 		if q.cur != nil {
 			// complete the event being written first (a partial event is dropped by Close by design)
 			for q.cur != nil {
@@ -205,7 +209,7 @@ func genQConfig(r *core.Rand, bounded int) QConfig {
 
 func finishQCase(c *core.Case, q *QWorld, res *core.Result, nops int) *core.Result {
 	if q.F != nil {
-		if !q.failed {
+		if !q.failed && !q.AbortCase && !q.UnsafeReopen {
 			// final: everything completed must be deliverable after a clean close/reopen
 			if q.cur != nil {
 				q.cur = nil // partial event is dropped
@@ -265,10 +269,35 @@ func runQueueModelCase(c *core.Case, mon QMon, tweak func(g *qGen)) *core.Result
 	prog := genQProgram(r, g, ps)
 	q := NewQWorld(cfg, mon, r, res)
 	q.TraceOn = c.Verbose
+	faulty := mon.Counters && c.Idx%5 == 4
 	if q.Open() {
+		if faulty {
+			// bursts of failing syncs: writer calls and ACKs may fail with I/O errors
+			q.Faulty = true
+			q.Disk.SetFaults([]simdisk.Fault{
+				{Kind: simdisk.KSync, Index: 4 + r.Intn(20), Burst: 1 + r.Intn(3)},
+				{Kind: simdisk.KSync, Index: 40 + r.Intn(60), Burst: 1 + r.Intn(3)},
+				{Kind: simdisk.KWrite, Index: 100 + r.Intn(300), Burst: 1, Mode: simdisk.FailBefore},
+			})
+		}
 		for _, op := range prog {
 			if !q.Exec(op) {
 				break
+			}
+			if q.UnsafeReopen && q.cbFlushed+q.Acked > q.lastProgress {
+				q.UnsafeReopen = false // a later transaction committed
+			}
+			q.lastProgress = q.cbFlushed + q.Acked
+		}
+		if faulty {
+			q.Disk.ClearFaults()
+			res.Add("fault_cases", 1)
+			res.Add("io_errors_surfaced", int64(q.IOErrs))
+			// make sure a commit succeeds before the final reopen
+			if !q.failed && !q.AbortCase && q.UnsafeReopen {
+				q.DoneRead()
+				q.WriteChunk(10, 0)
+				q.Flush()
 			}
 		}
 	}
